@@ -120,6 +120,9 @@ def check_one(spec, r, rtype, stats):
         g1 = M.resolve(sup, what)
         M.compare_atoms(g1["atoms"], m["atoms"], what + " (identity)", pos_tol=0.0)
         M.compare_terms(g1["terms"], m["terms"], what + " (identity)", ordered=True)
+    mf.scribble(sup)
+    if mf.snapshot(a) != snap:
+        raise Violation("result-aliases-original", "modifying the replicated structure in place changes the original (shared arrays)")
     return m
 
 
